@@ -161,7 +161,8 @@ Print Assumptions C16_event_delivery_never_finalizes.
    thread trace of dq_atomic_flags events and callout marks is run through): every step of gstep taken by thread t, seen as
    the events SrcLife.emit, is accepted by t's monitor, and the relation mrel between the model's view of t and the monitor
    state is kept; the monitors of the other threads are not concerned.  Hence the monitor never rejects a behaviour of the
-   model.  thread_ok: a thread is in one call at a time (not inside cancel_and_wait's wait loop while it activates / invokes).
+   model.  thread_ok: a thread is in one call at a time (it does not activate / invoke the source from inside cancel_and_wait's
+   wait loop, and that wait loop runs outside the drain lock).
    The converse is NOT claimed and is false: the monitor watches one thread and one word; it accepts e.g. an event handler
    start whenever that thread's last read had no CANCELED, whatever the other words and threads did; enabling conditions that
    depend on shared state are the business of the global replay below. *)
